@@ -173,6 +173,9 @@ func runUnits(cfg *Config, ld *Loaded, db *SpecDB, keys []string) []*UnitResult 
 	return results
 }
 
+// obligations proved only by stage 4 of Discharge (second attempt, four times the budget); reported in the evidence
+var retriedObls = map[string]bool{}
+
 func dischargeAll(cfg *Config, results []*UnitResult) {
 	type job struct {
 		o   *Obligation
@@ -184,6 +187,12 @@ func dischargeAll(cfg *Config, results []*UnitResult) {
 			jobs = append(jobs, job{o, r.Eng})
 		}
 	}
+	knownOpen := map[string]bool{}
+	for _, k := range loadKnownFindings(cfg).entries {
+		if k.Status != "fixed" {
+			knownOpen[k.Obligation] = true
+		}
+	}
 	var wg sync.WaitGroup
 	ch := make(chan job)
 	for w := 0; w < cfg.Workers; w++ {
@@ -192,6 +201,8 @@ func dischargeAll(cfg *Config, results []*UnitResult) {
 			defer wg.Done()
 			for j := range ch {
 				q := &Query{Name: j.o.Unit.key + "/" + j.o.Name, Decls: j.eng.decls, Asserts: j.o.Asserts, Goal: j.o.Goal}
+				// obligations that are expected to fail (canaries, open known findings) do not get the long second attempt
+				q.NoRetry = j.o.Canary || knownOpen[q.Name]
 				j.o.Result = Discharge(q, cfg.TimeoutMs, cfg.Seed)
 			}
 		}()
@@ -371,6 +382,9 @@ func report(cfg *Config, ld *Loaded, db *SpecDB, results []*UnitResult, loadS, g
 			s.Instances++
 			s.Seconds += o.Result.Seconds
 			s.Solvers[o.Result.Solver]++
+			if o.Result.Retried {
+				retriedObls[name] = true
+			}
 			if o.Result.Status != "unsat" {
 				s.Failed = append(s.Failed, o)
 			}
@@ -620,6 +634,7 @@ func writeEvidence(cfg *Config, funcs []string, byName map[string]*oblSummary, o
 			"backends":                 backends,
 			"samples":                  samples,
 			"engine_errors":            errs,
+			"discharged_only_in_the_second_attempt_with_4x_budget": len(retriedObls),
 		},
 		"assumptions": as,
 		"wall_s":      round2(wall),
